@@ -75,6 +75,7 @@ class St:
         self.ftypes = {}       # (obj, field) -> declared type (for re-creating havocked fields)
         self.cells = {}        # (region, offset key) -> stored value (pointers kept in arrays)
         self.wraps = []        # descriptions of unsigned wrap-arounds taken on this path
+        self.wlog = []         # ordered log of memory writes (content provenance, see Engine.log_write)
         self.status = 'normal'
         self.ret = None
         self.trail = []        # human readable branch decisions
@@ -89,6 +90,7 @@ class St:
         s.ftypes = dict(self.ftypes)
         s.cells = dict(self.cells)
         s.wraps = list(self.wraps)
+        s.wlog = list(self.wlog)
         s.status = self.status
         s.ret = self.ret
         s.trail = list(self.trail)
@@ -113,6 +115,7 @@ class Engine:
     def __init__(self, prog, config=None):
         self.prog = prog
         self.cfg = config or {}
+        self.loop_depth = 0
         self.obligations = []
         self.root = None
         self.counter = itertools.count()
@@ -144,6 +147,63 @@ class Engine:
         elif t in SBITS:
             b = SBITS[t]
             st.assume(ge(v, -(1 << (b - 1))), le(v, (1 << (b - 1)) - 1))
+
+    # ------------------------------------------------------------------ content provenance
+    def log_write(self, st, entry):
+        """entry: ('copy', dst Ptr, src Ptr, n) | ('fill', dst Ptr, value, n) | ('put', dst Ptr, value) |
+        ('opaque', dst Ptr, n, tag) | ('unknown', region).  Writes made inside a loop body (analysed once for an
+        arbitrary iteration) do not describe the final content: the whole region becomes unknown."""
+        if not self.cfg.get('track_content'):
+            return
+        dst = entry[1]
+        if self.loop_depth > 0:
+            entry = ('unknown', dst.region if isinstance(dst, Ptr) else dst)
+        st.wlog.append(entry)
+
+    def content_at(self, st, region, off, upto=None):
+        """provenance of the byte region[ off] after the first `upto` log entries: list of (descriptor, state)
+        with descriptor ('init', region, off) | ('const', value) | ('opaque', tag, off) | ('unknown',); the
+        state carries the case-split assumptions under which the descriptor is the right one."""
+        log = st.wlog
+        k = len(log) if upto is None else upto
+        for j in range(k - 1, -1, -1):
+            e = log[j]
+            if e[0] == 'unknown':
+                if e[1] == region:
+                    return [(('unknown',), st)]
+                continue
+            dst = e[1]
+            if not isinstance(dst, Ptr):
+                return [(('unknown',), st)]
+            if dst.region != region:
+                continue
+            lo = dst.off
+            n = lin(1) if e[0] == 'put' else e[3] if e[0] in ('copy', 'fill') else e[2]
+            res = []
+            inside = st.copy()
+            inside.assume(ge(off, lo), lt(off, lo + n))
+            if inside.ok():
+                if e[0] == 'copy':
+                    src = e[2]
+                    if isinstance(src, Ptr):
+                        res.extend(self.content_at(inside, src.region, src.off + (off - lo), j))
+                    else:
+                        res.append((('unknown',), inside))
+                elif e[0] in ('fill', 'put'):
+                    v = e[2]
+                    res.append(((('const', v) if isinstance(v, Lin) else ('unknown',)), inside))
+                else:
+                    res.append((('opaque', e[3], off - lo), inside))
+            below = st.copy()
+            below.assume(lt(off, lo))
+            if below.ok():
+                res.extend(self.content_at(below, region, off, j))
+            above = st.copy()
+            above.assume(ge(off, lo + n))
+            if above.ok():
+                res.extend(self.content_at(above, region, off, j))
+            return res
+        return [(('init', region, off), st)]
 
     # ------------------------------------------------------------------ obligations
     def oblige(self, st, goals, kind, what, node, func, detail=''):
@@ -484,6 +544,7 @@ class Engine:
                                                    func.loc(node) if func else '', ''))
                 return
             self.access(st, lv[1], 1, 'element', node, func, write=True)
+            self.log_write(st, ('put', lv[1], v))
             # a write to the region invalidates every remembered cell of it (may alias), then remember this one
             for key in [k for k in st.cells if k[0] == lv[1].region]:
                 del st.cells[key]
@@ -1045,6 +1106,10 @@ class Engine:
         st.vars = {k: self.rename_value(v, a, b) for k, v in st.vars.items()}
         if st.ret is not None:
             st.ret = self.rename_value(st.ret, a, b)
+        if st.wlog:
+            st.wlog = [tuple(self.rename_value(x, a, b) if isinstance(x, Ptr) else
+                             (self.swap_name(x, a, b) if i == 1 and e[0] == 'unknown' else x)
+                             for i, x in enumerate(e)) for e in st.wlog]
 
     def run_ctor(self, f, cs, vals):
         """executes constructor f on the object currently called 'this' in state cs"""
@@ -1154,7 +1219,13 @@ class Engine:
         if objn is not None:
             states = [s1 for s in states for _, s1 in self.ev(objn, s, func)]
         for a in args:
-            states = [s1 for s in states for _, s1 in self.ev(a, s, func)]
+            nxt = []
+            for s in states:
+                for v, s1 in self.ev(a, s, func):
+                    if isinstance(v, Ptr) and not (a.get('t') or '').startswith('const '):
+                        self.log_write(s1, ('unknown', v.region))      # the callee may write through it
+                    nxt.append(s1)
+            states = nxt
         res = []
         t = n.get('t')
         for s in states:
@@ -1403,6 +1474,13 @@ class Engine:
         return vars_, fields, havoc_this, incs, decs
 
     def loop(self, n, states, func):
+        self.loop_depth += 1
+        try:
+            return self.loop_(n, states, func)
+        finally:
+            self.loop_depth -= 1
+
+    def loop_(self, n, states, func):
         k = n['k']
         kids = n.get('c', [])
         init = cond = inc = body = None
@@ -1825,6 +1903,8 @@ def m_memcpy(eng, n, st, func, want):
                     if entails(s1.cons, ge(z, s.off)) and entails(s1.cons, lt(z, s.off + cnt)):
                         moved.append(d.off + (z - s.off))
             eng.access(s1, d, cnt, '%s destination' % name, n, func, write=True)
+            if isinstance(d, Ptr):
+                eng.log_write(s1, ('copy', d, s, cnt))
             for z in moved:
                 eng.add_nul(s1, d.region, z)
         else:
@@ -1840,6 +1920,8 @@ def m_memset(eng, n, st, func, want):
     for (d, val, cnt), s1 in _ev_all(eng, args[:3], st, func):
         if isinstance(cnt, Lin):
             eng.access(s1, d, cnt, 'memset destination', n, func, write=True)
+            if isinstance(d, Ptr):
+                eng.log_write(s1, ('fill', d, val, cnt))
             if isinstance(val, Lin) and val.is_const() and val.c == 0 and isinstance(d, Ptr):
                 # all cells zero: remember first and last
                 eng.add_nul(s1, d.region, d.off)
@@ -1898,6 +1980,7 @@ def m_strcpy(eng, n, st, func, want):
             else:
                 eng.access(s1, d, ln + 1, 'strcpy destination (length + terminator)', n, func, write=True)
                 if isinstance(d, Ptr):
+                    eng.log_write(s1, ('copy', d, s, ln + 1))
                     eng.add_nul(s1, d.region, d.off + ln)
                     s1.fields[(d.region, 'strlen')] = d.off + ln
         else:
